@@ -138,6 +138,11 @@ func genBatch(r *rand.Rand, mode string) (BatchCfg, *BatchScript) {
 		c.N, c.W, c.Fb, c.StopMode, c.Sched, c.Via, c.Shape = 1, 0, false, r.Intn(2) == 0, "cancelfeed", "builder", "results"
 		c.Cancel, c.CtxKind = true, []string{"cancel", "cause", "deadline"}[r.Intn(3)]
 		pFail = 0
+	case "fbhold": // the fallback of a failing item is still running while the other items are processed by the other workers
+		c.C = 2 + r.Intn(2)
+		c.Items = c.C + 1 + r.Intn(4)
+		c.N, c.W, c.Fb, c.StopMode, c.Sched, c.Via, c.Shape = 1 + r.Intn(2), 0, true, false, "fbhold", "builder", "results"
+		pFail = 0
 	case "waitcancel": // an item waits between two attempts while another item's exec cancels the context
 		c.C, c.Items = 2, 2
 		c.N, c.W, c.Fb, c.StopMode, c.Sched, c.Via, c.Shape = 2, 40, false, false, "waitcancel", "builder", "results"
@@ -227,6 +232,11 @@ func genBatch(r *rand.Rand, mode string) (BatchCfg, *BatchScript) {
 	}
 	if mode == "cancelfeed" {
 		s.Items[2].Execs[0].Cancel = true // item 2 cancels at once; item 1 is still busy (30 ms) and ignores the context
+	}
+	if mode == "fbhold" {
+		for k := range s.Items[1].Execs {
+			s.Items[1].Execs[k].Out = "err" // item 1 fails for good; its fallback succeeds, after all the others are done
+		}
 	}
 	if mode == "waitcancel" {
 		s.Items[1].Execs[0].Out = "err"   // item 1 fails at once and waits 40 ms for its second attempt
@@ -371,6 +381,12 @@ func init() {
 				n = 6
 				if count > 500 {
 					n = 30
+				}
+			}
+			if mode == "fbhold" {
+				n = 8
+				if count > 500 {
+					n = 60
 				}
 			}
 			if mode == "waitcancel" { // 50 ms each
